@@ -111,6 +111,12 @@ pub fn dispatch(op: &str, a: &[&str]) -> Option<Ans> {
             let key: [u8; 32] = arr(&b[0]);
             let mut mac = [0xA5u8; 16];
             crypto_onetimeauth(&mut mac, &b[1], &key);
+            {
+                let (big, st) = at_addr(&b[1], 1 + b[1].len() % 7);
+                let mut m2 = [0u8; 16];
+                crypto_onetimeauth(&mut m2, &big[st..st + b[1].len()], &key);
+                if m2 != mac { return Some((format!("mismatch message at an odd address: {}", hex(&m2)), "n/a".into())); }
+            }
             let mut smac = [0u8; 16];
             unsafe { so::crypto_onetimeauth(smac.as_mut_ptr(), b[1].as_ptr(), b[1].len() as u64, key.as_ptr()) };
             (ok(&mac), ok(&smac))
@@ -186,6 +192,12 @@ pub fn dispatch(op: &str, a: &[&str]) -> Option<Ans> {
             let key: [u8; 32] = arr(&b[0]);
             let mut mac = [0xA5u8; 32];
             crypto_auth(&mut mac, &b[1], &key);
+            {
+                let (big, st) = at_addr(&b[1], 1 + b[1].len() % 7);
+                let mut m2 = [0u8; 32];
+                crypto_auth(&mut m2, &big[st..st + b[1].len()], &key);
+                if m2 != mac { return Some((format!("mismatch message at an odd address: {}", hex(&m2)), "n/a".into())); }
+            }
             let mut smac = [0u8; 32];
             unsafe { so::crypto_auth(smac.as_mut_ptr(), b[1].as_ptr(), b[1].len() as u64, key.as_ptr()) };
             (ok(&mac), ok(&smac))
@@ -249,6 +261,12 @@ pub fn dispatch(op: &str, a: &[&str]) -> Option<Ans> {
             let key = &b[0];
             let mut out = vec![0xA5u8; outlen];
             let r = crypto_generichash(&mut out, &b[1], if key.is_empty() { None } else { Some(key) });
+            {
+                let (big, st) = at_addr(&b[1], 1 + (b[1].len() + outlen) % 7);
+                let mut o2 = vec![0u8; outlen];
+                let r2 = crypto_generichash(&mut o2, &big[st..st + b[1].len()], if key.is_empty() { None } else { Some(key) });
+                if r2.is_ok() != r.is_ok() || (r.is_ok() && o2 != out) { return Some((format!("mismatch message at an odd address: {}", hex(&o2)), "n/a".into())); }
+            }
             // the same hash into a destination at an odd address inside a larger buffer
             {
                 let off = 1 + (b[1].len() + outlen) % 7;
@@ -342,6 +360,12 @@ pub fn dispatch(op: &str, a: &[&str]) -> Option<Ans> {
         "sha512" => {
             let mut d = [0xA5u8; 64];
             crypto_hash_sha512(&mut d, &b[0]);
+            {
+                let (big, st) = at_addr(&b[0], 1 + b[0].len() % 7);
+                let mut d2 = [0u8; 64];
+                crypto_hash_sha512(&mut d2, &big[st..st + b[0].len()]);
+                if d2 != d { return Some((format!("mismatch message at an odd address: {}", hex(&d2)), "n/a".into())); }
+            }
             let mut s = [0u8; 64];
             unsafe { so::crypto_hash_sha512(s.as_mut_ptr(), b[0].as_ptr(), b[0].len() as u64) };
             (ok(&d), ok(&s))
@@ -380,6 +404,13 @@ pub fn dispatch(op: &str, a: &[&str]) -> Option<Ans> {
             let key: [u8; 16] = arr(&b[0]);
             let mut h = [0xA5u8; 8];
             crypto_shorthash(&mut h, &b[1], &key);
+            // the same message at every address class 1..7 (mod 8)
+            for off in 1..8usize {
+                let (big, st) = at_addr(&b[1], off);
+                let mut h2 = [0u8; 8];
+                crypto_shorthash(&mut h2, &big[st..st + b[1].len()], &key);
+                if h2 != h { return Some((format!("mismatch message at an address ≡ {} (mod 8): {}", off, hex(&h2)), "n/a".into())); }
+            }
             let mut s = [0u8; 8];
             unsafe { so::crypto_shorthash(s.as_mut_ptr(), b[1].as_ptr(), b[1].len() as u64, key.as_ptr()) };
             (ok(&h), ok(&s))
